@@ -367,6 +367,38 @@ pub fn worker_hist(prop: &str, shard: usize, _nshards: usize, seed: u64, tier: &
         run_history(out, &steps, prop, &id);
         out.end();
     }
+    if prop == "C18" {
+        // deep lines are cheap in tiny endings, and that is where entries filed under the wrong
+        // side or a wrong ply show up in a printed line: short histories of a small position and
+        // a few of its successors, searched to depth 6-8 on one table
+        let ntiny = if tier == "thorough" { 400 } else { 60 };
+        for h in 0..ntiny {
+            let extra = 1 + rng.below(3);
+            let p0 = gen::random_small_pos(&mut rng, extra);
+            let mut steps = vec![];
+            let mut p = p0.clone();
+            let mut moves: Vec<String> = vec![];
+            let fen0 = fen::render6(&p0, 0, 1);
+            for k in 0..5 {
+                let limit = Some(if k == 0 { 6 + rng.below(3) as u8 } else { 5 + rng.below(3) as u8 });
+                steps.push(HStep { root: Root { fen: fen0.clone(), moves: moves.clone() }, limit, stop_at: 0, clear_table: false });
+                let legal = p.legal_moves();
+                if legal.is_empty() {
+                    break;
+                }
+                let m = *rng.pick(&legal);
+                moves.push(m.uci());
+                p = p.make(&m);
+            }
+            let id = format!("{seed}/{shard}/tiny{h}");
+            out.begin(&json!({"kind":"history","id":id,"steps":steps.iter().map(|s| s.json()).collect::<Vec<_>>() }));
+            out.add("histories", 1);
+            out.add("tiny_ending_histories", 1);
+            out.add("distinct_roots_local", steps.len() as u64);
+            run_history(out, &steps, prop, &id);
+            out.end();
+        }
+    }
 }
 
 pub fn run_hist(prop: &str, tier: &str, seed: u64) -> (Check, Agg) {
@@ -391,6 +423,7 @@ pub fn run_hist(prop: &str, tier: &str, seed: u64) -> (Check, Agg) {
     }
     if prop == "C18" {
         chk.need("pv lines replayed", agg.c("pv_lines"), 300);
+        chk.need("deep histories on tiny endings", agg.c("tiny_ending_histories"), 500);
     }
     (chk, agg)
 }
